@@ -65,7 +65,13 @@ HashConfig(s) ==
       base == [ H |-> h, ppp |-> MasksOf(d)[mi], S |-> 2, types |-> HTypes(s, n, K),
                 frames |-> [f \in 1..nf |-> [i \in 1..n |-> [k \in 1..d |-> HPos(s, f, i, k, h[k][k])]]],
                 sharp |-> (IF DyadicCell(h) THEN 1 ELSE 0), id |-> s ]
-  IN  IF nf = 3 /\ K = 2 THEN base @@ [Hs |-> <<h, Sh(3, 0 - 2), Sh(0 - 5, 4)>>] ELSE base
+      \* three-frame members with more than one species also carry per-frame species labels: the labels move
+      \* between the particles at constant composition (identity-swap moves), so the type-pair cut-off of a
+      \* pair is decided by the labels of THAT frame
+      ty0  == HTypes(s, n, K)
+      Rot(t, r) == [i \in 1..n |-> t[((i - 1 + r) % n) + 1]]
+      withH == IF nf = 3 /\ K = 2 THEN base @@ [Hs |-> <<h, Sh(3, 0 - 2), Sh(0 - 5, 4)>>] ELSE base
+  IN  IF nf = 3 /\ K >= 2 THEN withH @@ [tys |-> <<ty0, Rot(ty0, 2), Rot(ty0, 5)>>] ELSE withH
 RMat(K) == IF K = 1 THEN << <<7>> >>
            ELSE IF K = 2 THEN << <<6, 9>>, <<4, 8>> >>
            ELSE << <<6, 9, 5>>, <<4, 8, 10>>, <<7, 3, 6>> >>
@@ -121,7 +127,7 @@ OpSet    == Range(Ops(c))
 \* table and the expected lists are evaluated once per frame / per (frame, operation)
 ForAllFrameOps(Clause(_, _, _)) ==
   IsConfig => \A f \in Frames : LET T == DT(c, f) IN
-               \A op \in OpSet : LET E == ET(T, c.types, c.sharp, op) IN Clause(T, E, op)
+               \A op \in OpSet : LET E == ET(T, TypesAt(c, f), c.sharp, op) IN Clause(T, E, op)
 InvNoSelf     == ForAllFrameOps(LAMBDA T, E, op : NoSelf(T, E))
 InvSorted     == ForAllFrameOps(LAMBDA T, E, op : SortedByDistance(T, E))
 InvNClosest   == ForAllFrameOps(LAMBDA T, E, op : ExactlyNClosest(T, E, op))
